@@ -618,6 +618,14 @@ impl IQLEngine {
         // Recursion detection
         self.has_recursion = recursion::has_recursion(&program);
 
+        // A program with recursion through negation has no stratified model: reject it
+        // here, whatever mix of persistent, session and inline rules it was assembled from.
+        if let recursion::StratificationResult::NotStratifiable { reason, .. } =
+            recursion::stratify_with_negation(&program)
+        {
+            return Err(format!("Program is not stratifiable: {reason}"));
+        }
+
         // Stratification - compute evaluation order using SCCs
         self.strata = recursion::stratify(&program);
 
